@@ -342,6 +342,26 @@ pub fn display_throughput(
         .to_string()
 }
 
+/// `display_throughput` formatted with an explicit precision and/or
+/// (left-aligned) width, like `fmt_duration_with`.
+pub fn display_throughput_with(
+    kind: u8,
+    count: u64,
+    picos: u128,
+    binary: bool,
+    precision: Option<usize>,
+    width: Option<usize>,
+) -> String {
+    let counter = AnyCounter::known(counter_kind(kind), count as _);
+    let t = counter.display_throughput(FineDuration { picos }, bytes_format(binary));
+    match (precision, width) {
+        (None, None) => format!("{t}"),
+        (Some(p), None) => format!("{t:.p$}"),
+        (None, Some(w)) => format!("{t:<w$}"),
+        (Some(p), Some(w)) => format!("{t:<w$.p$}"),
+    }
+}
+
 fn ord(o: Ordering) -> i8 {
     o as i8
 }
